@@ -67,6 +67,14 @@ func camel(s string) string {
 	return string(out)
 }
 
+// baseKind strips a declared proto2 default ("int32=5") from a corpus kind
+func baseKind(k string) string {
+	if i := strings.Index(k, "="); i >= 0 {
+		return k[:i]
+	}
+	return k
+}
+
 func exportName(s string) string {
 	// protoc-gen-go camel-cases message names that start with a lower-case letter
 	if s == "" {
@@ -251,7 +259,7 @@ func (bc *builtCorpus) mainSource() string {
 					full = prefix + "." + m.Name
 				}
 				for _, x := range m.Ext {
-					fmt.Fprintf(&b, "\t\t\t{Name: %q, Num: %d, Kind: %q, Extendee: %q, Desc: %s.E_%s_%s},\n", x.Name, x.Num, x.Kind,
+					fmt.Fprintf(&b, "\t\t\t{Name: %q, Num: %d, Kind: %q, Extendee: %q, Desc: %s.E_%s_%s},\n", x.Name, x.Num, baseKind(x.Kind),
 						strings.TrimPrefix(x.Card, "ext:"), alias(g), exportName(goTypeName(full)), camel(x.Name))
 				}
 				walk(m.Nested, full)
@@ -259,7 +267,7 @@ func (bc *builtCorpus) mainSource() string {
 		}
 		walk(g.Schema.Messages, "")
 		for _, x := range g.Schema.FileExt {
-			fmt.Fprintf(&b, "\t\t\t{Name: %q, Num: %d, Kind: %q, Extendee: %q, Desc: %s.E_%s},\n", x.Name, x.Num, x.Kind,
+			fmt.Fprintf(&b, "\t\t\t{Name: %q, Num: %d, Kind: %q, Extendee: %q, Desc: %s.E_%s},\n", x.Name, x.Num, baseKind(x.Kind),
 				strings.TrimPrefix(x.Card, "ext:"), alias(g), camel(x.Name))
 		}
 		b.WriteString("\t\t}},\n")
